@@ -156,9 +156,9 @@ class EndpointVisitor(Visitor[IROperation, str]):
                             # This is the final line of the signature
                             # For Protocol, convert to stub format
 
-                            # Check if this is an async generator (returns AsyncIterator)
+                            # Check if this is an async generator (returns AsyncIterator[...])
                             # If so, remove 'async' from the first line
-                            is_async_generator = "AsyncIterator" in sig_stripped
+                            is_async_generator = ") -> AsyncIterator[" in sig_stripped
 
                             # Write all lines except the last
                             for idx, sig in enumerate(signature_lines[:-1]):
